@@ -168,6 +168,7 @@ type frame struct {
 	data  []byte // the sample that must appear in the file, exactly
 	p0    int    // index of its first packet in the track
 	pn    int    // number of packets
+	cuts  []int  // sample length after each packet but the last (VP8/VP9)
 }
 
 type packet struct {
@@ -425,6 +426,13 @@ func buildVideo(s *session, r *rand.Rand) *track {
 			size += c
 		}
 		fm := frame{idx: i, capMs: f.cap, key: f.key, p0: len(t.pkts), pn: len(f.chunks)}
+		if p.Video != "h264" {
+			sum := 0
+			for _, c := range f.chunks[:len(f.chunks)-1] {
+				sum += c
+				fm.cuts = append(fm.cuts, sum)
+			}
+		}
 		fm.ts = t.rtpAt(f.cap)
 		body := make([]byte, size)
 		fillHash(body, s.p.Session, 1, uint64(i), uint64(size))
@@ -1001,6 +1009,7 @@ type sample struct {
 	tc   int64
 	file int
 	pos  int
+	ts   uint32 // reference run only
 }
 
 type issue struct {
@@ -1127,6 +1136,13 @@ func (t *track) checkSamples(ss []sample, required []bool, withTc bool) ([]issue
 		if len(cands) == 0 {
 			clause, fi, what := t.describeInexact(s.data, last+1)
 			issues = append(issues, issue{clause: clause, frame: fi, what: what, sig: "x:" + sig(s.data)})
+			if fi >= 0 && clause != "frame-corrupt" && !seen[fi] {
+				// a damaged copy of frame fi: report the damage, not also its absence
+				seen[fi] = true
+				if fi > last {
+					last = fi
+				}
+			}
 		} else {
 			fi := -1
 			for _, c := range cands {
@@ -1135,7 +1151,26 @@ func (t *track) checkSamples(ss []sample, required []bool, withTc bool) ([]issue
 					break
 				}
 			}
-			if fi < 0 {
+			if fi > last+1 && len(s.data) < 16 {
+				// a very short sample may equal a far-away tiny frame by accident
+				// while really being the beginning of a nearer one
+				for j := last + 1; j < fi; j++ {
+					atCut := false
+					for _, c := range t.frames[j].cuts {
+						atCut = atCut || c == len(s.data)
+					}
+					if fd := t.frames[j].data; atCut && len(fd) > len(s.data) && string(fd[:len(s.data)]) == string(s.data) {
+						issues = append(issues, issue{clause: "frame-truncated", frame: j, what: fmt.Sprintf("only the first %d of the %d bytes of frame %d (%d packets) were written", len(s.data), len(fd), j, t.frames[j].pn), sig: "x:" + sig(s.data)})
+						fi = -2
+						seen[j] = true
+						last = j
+						break
+					}
+				}
+			}
+			if fi == -2 {
+				// reported above
+			} else if fi < 0 {
 				// not a later frame: a duplicate or an inversion
 				dup := -1
 				for _, c := range cands {
@@ -1279,19 +1314,19 @@ func (t *track) reference() []sample {
 		}
 		b.Push(p)
 		for {
-			s, _ := b.PopWithTimestamp()
+			s, ts := b.PopWithTimestamp()
 			if s == nil {
 				break
 			}
-			out = append(out, sample{data: s.Data, pos: fi})
+			out = append(out, sample{data: s.Data, pos: fi, ts: ts})
 		}
 	}
 	for {
-		s, _ := b.ForcePopWithTimestamp()
+		s, ts := b.ForcePopWithTimestamp()
 		if s == nil {
 			break
 		}
-		out = append(out, sample{data: s.Data, pos: len(t.feed)})
+		out = append(out, sample{data: s.Data, pos: len(t.feed), ts: ts})
 	}
 	return out
 }
@@ -1326,7 +1361,7 @@ func (t *track) refInfo(required []bool) *refRun {
 		}
 	}
 	started := t.id == 0
-	for i, m := range ri.matches {
+	for _, m := range ri.matches {
 		if m.frame < 0 {
 			continue
 		}
@@ -1337,20 +1372,49 @@ func (t *track) refInfo(required []bool) *refRun {
 		if started {
 			ri.writable[m.frame] = true
 		}
-		if t.id == 1 && t.frames[m.frame].key {
-			// stale keyframe: between the arrival of its first packet and its
-			// release, the first packet of another keyframe reached the recorder
-			own := firstFeed[t.frames[m.frame].p0]
+	}
+	if t.id == 1 {
+		// stale keyframe: between the arrival of its first packet and the
+		// release of a sample carrying its timestamp, the first packet of
+		// another keyframe reached the recorder
+		byTs := map[uint32]int{}
+		for i := range t.frames {
+			byTs[t.frames[i].ts] = i
+		}
+		// the first keyframe packet to arrive fixes the track's origin; what is
+		// older than that is dropped by design
+		originSet, originTs := false, uint32(0)
+		for _, pi := range t.feed {
+			if f := &t.frames[t.pkts[pi].frame]; f.key && pi == f.p0 {
+				originSet, originTs = true, f.ts
+				break
+			}
+		}
+		for _, smp := range ri.samples {
+			g, ok := byTs[smp.ts]
+			if !ok || !t.frames[g].key {
+				continue
+			}
+			if originSet && int32(smp.ts-originTs) < 0 {
+				continue
+			}
+			own, ok := firstFeed[t.frames[g].p0]
+			if !ok {
+				continue // its first packet never arrived: the recorder cannot know it is a keyframe
+			}
+			st := false
 			for h := range t.frames {
-				if h == m.frame || !t.frames[h].key {
+				if h == g || !t.frames[h].key {
 					continue
 				}
-				if fp, ok := firstFeed[t.frames[h].p0]; ok && fp > own && fp <= ri.samples[i].pos {
-					ri.stale[m.frame] = true
+				if fp, ok := firstFeed[t.frames[h].p0]; ok && fp > own && fp <= smp.pos {
+					st = true
 				}
 			}
-			if !ri.stale[m.frame] && ri.goodKfAt < 0 {
-				ri.goodKfAt = ri.samples[i].pos
+			if st {
+				ri.stale[g] = true
+			} else if ri.goodKfAt < 0 {
+				ri.goodKfAt = smp.pos
 			}
 		}
 	}
@@ -1518,6 +1582,14 @@ func (s *session) check() {
 				what += "; both tracks were synchronised by sender reports after recording began"
 			}
 		}
+		if key == "not-flushed:file-left-open" {
+			if len(s.files) > 1 {
+				key += ":recording-split-in-several-files"
+				what += fmt.Sprintf("; the recorder split this one connection (constant resolution, less than a minute of media) into %d files", len(s.files))
+			} else {
+				key += ":" + p.Class
+			}
+		}
 		s.violation(key, what)
 	}
 	per := map[int][]sample{}
@@ -1653,7 +1725,9 @@ func (s *session) check() {
 		for _, m := range matches {
 			if m.frame >= 0 {
 				exact++
-				fileBlocks[m.file] = append(fileBlocks[m.file], fblock{t.id, m.frame, m.tc})
+				if len(t.frames[m.frame].data) >= 16 { // identifies its frame beyond doubt
+					fileBlocks[m.file] = append(fileBlocks[m.file], fblock{t.id, m.frame, m.tc})
+				}
 			}
 		}
 		run.Count("blocks_verified_exact", int64(exact))
@@ -1878,9 +1952,17 @@ func (s *session) dump(per map[int][]sample) {
 		_, m := t.checkSamples(per[t.id], nil, false)
 		fmt.Printf("  file samples:")
 		for i, x := range m {
-			fmt.Printf(" %d@%d(%dB)", x.frame, x.tc, len(per[t.id][i].data))
+			fmt.Printf(" %d@%d(%dB)f%d", x.frame, x.tc, len(per[t.id][i].data), x.file)
 		}
 		fmt.Printf("\n")
+		if os.Getenv("C20_DEBUG_REF") != "" {
+			fmt.Printf("  ref samples:")
+			ri := t.refInfo(nil)
+			for i, x := range ri.matches {
+				fmt.Printf(" %d(%dB)p%d", x.frame, len(ri.samples[i].data), ri.samples[i].pos)
+			}
+			fmt.Printf("\n")
+		}
 	}
 	fmt.Printf("events:")
 	for i, e := range s.events {
@@ -1937,7 +2019,7 @@ func main() {
 	group.Directory = filepath.Join(run.Scratch, "groups")
 	os.MkdirAll(diskwriter.Directory, 0o755)
 	os.MkdirAll(group.Directory, 0o755)
-	run.MaxReplays = 20
+	run.MaxReplays = 40
 
 	rule := "sessions generated from (seed, index): codec set x delivery class (in order / reordered <= 10 packets / duplicated / withheld-but-cached / withheld-and-lost / mixed / late start) x sender-report timing per track (before, midstream and repeated, never) x seqno and timestamp wrap x packets-per-frame class x end (departure, Close); each session drives the real diskwriter through conn.Up/UpTrack/DownTrack and its file is read back with an independent EBML reader; distinct_nontrivial = distinct (codecs, delivery class, SR timing, wrap flags, packets-per-frame class) among sessions whose recording holds at least one block"
 
@@ -1954,7 +2036,7 @@ func main() {
 		run.Finish("exploration", "replay of one recorded session")
 	}
 
-	n := run.Pick(153, 5004)
+	n := run.Pick(306, 5004)
 	thorough := !run.Quick()
 	if d := os.Getenv("C20_DEBUG"); d != "" {
 		var i uint64
